@@ -116,6 +116,29 @@ def run(ctx):
             probs.append("returned labels are not those of the last round")
         for p in probs:
             ctx.violation("monitor", p, {"case": case})
+        # every round fits the MRFs to the statistics of the CURRENT labels: the MRF stored after the optimise phase
+        # must be a fresh solve for that round's covariance (checked for all rounds after a repopulation that moved
+        # points, and for the last round)
+        from fast_ticc import admm as _admm, matrix_compression as _mc
+        phases = [e for e in r["events"] if e["event"] == "phase"]
+        for j, (lin, lfit, lout, _) in enumerate(tr["rounds"]):
+            if not ((j > 0 and lin != lfit) or j == nr - 1):
+                continue
+            opt = [e for e in phases if e["round"] == j and e["phase"] == "optimise"]
+            if not opt:
+                continue
+            for k, c in enumerate(opt[0]["state"]["clusters"]):
+                S = c["empirical_covariance"]
+                if S is None or c["train_inverse"] is None:
+                    continue
+                fresh = _mc.reinflate_matrix(_admm.admm_optimize_theta(np.array(S, copy=True), cfg.get("lam", 0.11), cfg["W"], cfg["N"]).theta)
+                eps = cfg.get("eps", 0)
+                if eps:
+                    fresh[(fresh < eps) & (fresh > -eps)] = 0
+                if not np.allclose(fresh, c["train_inverse"], rtol=1e-9, atol=1e-12):
+                    ctx.violation("monitor", "round %d: the MRF of cluster %d is not a fit to that round's covariance (max diff %.3g) - stale model"
+                                  % (j, k, float(np.max(np.abs(fresh - c["train_inverse"])))), {"case": case})
+                    break
         # result = last round: cost, MRFs
         fin = [e for e in r["events"] if e["event"] == "final"][0]["state"]
         lo = [e for e in r["events"] if e["event"] == "labelling_output"]
